@@ -3537,7 +3537,12 @@ HashtableMid<KeyType,ValueType,HashFunctorType,SubclassType>::SwapWithTable(cons
    if ((myE)||(hisE))
    {
            if (myE == hisE)   return B_NO_ERROR;  // swapping with myself is a no-op
-      else if ((myE)&&(hisE)) {muscleSwap(myE->_value, hisE->_value); return B_NO_ERROR;}
+      else if ((myE)&&(hisE))
+      {
+         // Go through PutAux() rather than swapping the values in place, so that auto-sorting tables get a chance to move the entries to their correct positions
+         ValueType myOldValue = HT_PlunderValue(myE->_value);
+         return ((this->PutAux(hash, swapMe, HT_PlunderValue(hisE->_value), NULL, NULL) != NULL)&&(swapTable.PutAux(hash, swapMe, HT_PlunderValue(myOldValue), NULL, NULL) != NULL)) ? B_NO_ERROR : B_OUT_OF_MEMORY;
+      }
       else if (myE)           return (swapTable.PutAux(hash, swapMe, HT_PlunderValue( myE->_value), NULL, NULL) != NULL) ? this->RemoveAux(     myE->_hash, swapMe, NULL) : B_OUT_OF_MEMORY;
       else                    return (    this->PutAux(hash, swapMe, HT_PlunderValue(hisE->_value), NULL, NULL) != NULL) ? swapTable.RemoveAux(hisE->_hash, swapMe, NULL) : B_OUT_OF_MEMORY;
    }
